@@ -231,17 +231,22 @@ func c09BGV(ctx *core.RunCtx, scaleInvariant bool) *c09Scheme {
 	bgvPolys := []any{bgpoly.NewPolynomial([]uint64{3, 1, 4, 1}), pvA, pvB}
 
 	sc.ops = []c09Op{
-		{name: "Add", op1: scal, deg: degAdd, call: func(e any, a *rlwe.Ciphertext, b any, k int, o *rlwe.Ciphertext) error { return ev(e).Add(a, b, o) }},
-		{name: "Sub", op1: scal, deg: degAdd, call: func(e any, a *rlwe.Ciphertext, b any, k int, o *rlwe.Ciphertext) error { return ev(e).Sub(a, b, o) }},
-		{name: "Mul", op1: scal, deg: degMul, call: func(e any, a *rlwe.Ciphertext, b any, k int, o *rlwe.Ciphertext) error { return ev(e).Mul(a, b, o) }},
+		{name: "Add", op1: scal, deg: degAdd, call: func(e any, a *rlwe.Ciphertext, b any, k int, o *rlwe.Ciphertext) error { return ev(e).Add(a, b, o) },
+			callNew: func(e any, a *rlwe.Ciphertext, b any, k int) (*rlwe.Ciphertext, error) { return ev(e).AddNew(a, b) }},
+		{name: "Sub", op1: scal, deg: degAdd, call: func(e any, a *rlwe.Ciphertext, b any, k int, o *rlwe.Ciphertext) error { return ev(e).Sub(a, b, o) },
+			callNew: func(e any, a *rlwe.Ciphertext, b any, k int) (*rlwe.Ciphertext, error) { return ev(e).SubNew(a, b) }},
+		{name: "Mul", op1: scal, deg: degMul, call: func(e any, a *rlwe.Ciphertext, b any, k int, o *rlwe.Ciphertext) error { return ev(e).Mul(a, b, o) },
+			callNew: func(e any, a *rlwe.Ciphertext, b any, k int) (*rlwe.Ciphertext, error) { return ev(e).MulNew(a, b) }},
 		{name: "MulRelin", op1: scal, deg: degRelin, call: func(e any, a *rlwe.Ciphertext, b any, k int, o *rlwe.Ciphertext) error {
 			return ev(e).MulRelin(a, b, o)
-		}},
+		}, callNew: func(e any, a *rlwe.Ciphertext, b any, k int) (*rlwe.Ciphertext, error) { return ev(e).MulRelinNew(a, b) }},
 		{name: "MulScaleInvariant", op1: []int{vCt, vPt, vVec, vU64}, deg: degMul, call: func(e any, a *rlwe.Ciphertext, b any, k int, o *rlwe.Ciphertext) error {
 			return ev(e).MulScaleInvariant(a, b, o)
-		}},
+		}, callNew: func(e any, a *rlwe.Ciphertext, b any, k int) (*rlwe.Ciphertext, error) { return ev(e).MulScaleInvariantNew(a, b) }},
 		{name: "MulRelinScaleInvariant", op1: []int{vCt, vPt, vVec}, deg: degRelin, call: func(e any, a *rlwe.Ciphertext, b any, k int, o *rlwe.Ciphertext) error {
 			return ev(e).MulRelinScaleInvariant(a, b, o)
+		}, callNew: func(e any, a *rlwe.Ciphertext, b any, k int) (*rlwe.Ciphertext, error) {
+			return ev(e).MulRelinScaleInvariantNew(a, b)
 		}},
 		{name: "MulThenAdd", op1: []int{vCt, vPt, vVec, vU64, vInt}, accum: true, deg: degMul, call: func(e any, a *rlwe.Ciphertext, b any, k int, o *rlwe.Ciphertext) error {
 			return ev(e).MulThenAdd(a, b, o)
@@ -252,11 +257,12 @@ func c09BGV(ctx *core.RunCtx, scaleInvariant bool) *c09Scheme {
 		{name: "Rescale", op1: []int{vNone}, deg: degSame, call: func(e any, a *rlwe.Ciphertext, b any, k int, o *rlwe.Ciphertext) error { return ev(e).Rescale(a, o) }},
 		{name: "Relinearize", op1: []int{vNone}, deg: degOne, call: func(e any, a *rlwe.Ciphertext, b any, k int, o *rlwe.Ciphertext) error {
 			return ev(e).Relinearize(a, o)
-		}},
+		}, callNew: func(e any, a *rlwe.Ciphertext, b any, k int) (*rlwe.Ciphertext, error) { return ev(e).RelinearizeNew(a) }},
 		{name: "RotateColumns", op1: []int{vNone}, ks: c09Rotations, deg: degOne, call: func(e any, a *rlwe.Ciphertext, b any, k int, o *rlwe.Ciphertext) error {
 			return ev(e).RotateColumns(a, k, o)
-		}},
-		{name: "RotateRows", op1: []int{vNone}, deg: degOne, call: func(e any, a *rlwe.Ciphertext, b any, k int, o *rlwe.Ciphertext) error { return ev(e).RotateRows(a, o) }},
+		}, callNew: func(e any, a *rlwe.Ciphertext, b any, k int) (*rlwe.Ciphertext, error) { return ev(e).RotateColumnsNew(a, k) }},
+		{name: "RotateRows", op1: []int{vNone}, deg: degOne, call: func(e any, a *rlwe.Ciphertext, b any, k int, o *rlwe.Ciphertext) error { return ev(e).RotateRows(a, o) },
+			callNew: func(e any, a *rlwe.Ciphertext, b any, k int) (*rlwe.Ciphertext, error) { return ev(e).RotateRowsNew(a) }},
 		{name: "InnerSum", op1: []int{vNone}, ks: []int{1, 2}, needDeg1: true, deg: degOne, call: func(e any, a *rlwe.Ciphertext, b any, k int, o *rlwe.Ciphertext) error {
 			return ev(e).InnerSum(a, k, 4, o)
 		}},
@@ -276,6 +282,8 @@ func c09BGV(ctx *core.RunCtx, scaleInvariant bool) *c09Scheme {
 		}},
 		{name: "rlwe.ApplyEvaluationKey", op1: []int{vNone}, needDeg1: true, deg: degOne, call: func(e any, a *rlwe.Ciphertext, b any, k int, o *rlwe.Ciphertext) error {
 			return ev(e).ApplyEvaluationKey(a, &cc.evk.RelinearizationKey.EvaluationKey, o)
+		}, callNew: func(e any, a *rlwe.Ciphertext, b any, k int) (*rlwe.Ciphertext, error) {
+			return ev(e).ApplyEvaluationKeyNew(a, &cc.evk.RelinearizationKey.EvaluationKey)
 		}},
 		{name: "rgsw.ExternalProduct", op1: []int{vRGSW}, needDeg1: true, needMaxLevel: true, callerSetsMeta: true, deg: degOne, call: func(e any, a *rlwe.Ciphertext, b any, k int, o *rlwe.Ciphertext) error {
 			e.(*c09Sys).rg.ExternalProduct(a, b.(*rgsw.Ciphertext), o)
@@ -629,12 +637,15 @@ func c09CKKS(ctx *core.RunCtx) *c09Scheme {
 	}
 	ckksPolys := []any{pol3, polCheb, cpvA, cpvB, polCheb15}
 	sc.ops = []c09Op{
-		{name: "Add", op1: scal, deg: degAdd, call: func(e any, a *rlwe.Ciphertext, b any, k int, o *rlwe.Ciphertext) error { return ev(e).Add(a, b, o) }},
-		{name: "Sub", op1: scal, deg: degAdd, call: func(e any, a *rlwe.Ciphertext, b any, k int, o *rlwe.Ciphertext) error { return ev(e).Sub(a, b, o) }},
-		{name: "Mul", op1: scal, deg: degMul, call: func(e any, a *rlwe.Ciphertext, b any, k int, o *rlwe.Ciphertext) error { return ev(e).Mul(a, b, o) }},
+		{name: "Add", op1: scal, deg: degAdd, call: func(e any, a *rlwe.Ciphertext, b any, k int, o *rlwe.Ciphertext) error { return ev(e).Add(a, b, o) },
+			callNew: func(e any, a *rlwe.Ciphertext, b any, k int) (*rlwe.Ciphertext, error) { return ev(e).AddNew(a, b) }},
+		{name: "Sub", op1: scal, deg: degAdd, call: func(e any, a *rlwe.Ciphertext, b any, k int, o *rlwe.Ciphertext) error { return ev(e).Sub(a, b, o) },
+			callNew: func(e any, a *rlwe.Ciphertext, b any, k int) (*rlwe.Ciphertext, error) { return ev(e).SubNew(a, b) }},
+		{name: "Mul", op1: scal, deg: degMul, call: func(e any, a *rlwe.Ciphertext, b any, k int, o *rlwe.Ciphertext) error { return ev(e).Mul(a, b, o) },
+			callNew: func(e any, a *rlwe.Ciphertext, b any, k int) (*rlwe.Ciphertext, error) { return ev(e).MulNew(a, b) }},
 		{name: "MulRelin", op1: scal, deg: degRelin, call: func(e any, a *rlwe.Ciphertext, b any, k int, o *rlwe.Ciphertext) error {
 			return ev(e).MulRelin(a, b, o)
-		}},
+		}, callNew: func(e any, a *rlwe.Ciphertext, b any, k int) (*rlwe.Ciphertext, error) { return ev(e).MulRelinNew(a, b) }},
 		{name: "MulThenAdd", op1: []int{vCt, vPt, vVecC, vC128, vF64, vInt}, accum: true, deg: degMul, call: func(e any, a *rlwe.Ciphertext, b any, k int, o *rlwe.Ciphertext) error {
 			return ev(e).MulThenAdd(a, b, o)
 		}},
@@ -644,9 +655,22 @@ func c09CKKS(ctx *core.RunCtx) *c09Scheme {
 		{name: "Rescale", op1: []int{vNone}, deg: degSame, call: func(e any, a *rlwe.Ciphertext, b any, k int, o *rlwe.Ciphertext) error { return ev(e).Rescale(a, o) }},
 		{name: "Relinearize", op1: []int{vNone}, deg: degOne, call: func(e any, a *rlwe.Ciphertext, b any, k int, o *rlwe.Ciphertext) error {
 			return ev(e).Relinearize(a, o)
+		}, callNew: func(e any, a *rlwe.Ciphertext, b any, k int) (*rlwe.Ciphertext, error) { return ev(e).RelinearizeNew(a) }},
+		{name: "Rotate", op1: []int{vNone}, ks: c09Rotations, deg: degOne, call: func(e any, a *rlwe.Ciphertext, b any, k int, o *rlwe.Ciphertext) error { return ev(e).Rotate(a, k, o) },
+			callNew: func(e any, a *rlwe.Ciphertext, b any, k int) (*rlwe.Ciphertext, error) { return ev(e).RotateNew(a, k) }},
+		{name: "Conjugate", op1: []int{vNone}, deg: degOne, call: func(e any, a *rlwe.Ciphertext, b any, k int, o *rlwe.Ciphertext) error { return ev(e).Conjugate(a, o) },
+			callNew: func(e any, a *rlwe.Ciphertext, b any, k int) (*rlwe.Ciphertext, error) { return ev(e).ConjugateNew(a) }},
+		{name: "ScaleUp", op1: []int{vNone}, ks: []int{2, 3, 8}, deg: degSame, call: func(e any, a *rlwe.Ciphertext, b any, k int, o *rlwe.Ciphertext) error {
+			return ev(e).ScaleUp(a, rlwe.NewScale(k), o)
+		}, callNew: func(e any, a *rlwe.Ciphertext, b any, k int) (*rlwe.Ciphertext, error) { return ev(e).ScaleUpNew(a, rlwe.NewScale(k)) }},
+		{name: "SetScale", op1: []int{vNone}, ks: []int{0, 1, 2}, inplace: true, deg: degSame, call: func(e any, a *rlwe.Ciphertext, b any, k int, o *rlwe.Ciphertext) error {
+			// to the default scale, or to 9/8 or 5/4 of the current one (consumes a level)
+			target := cp.DefaultScale()
+			if k > 0 {
+				target = a.Scale.Mul(rlwe.NewScale(1 + float64(k)/8))
+			}
+			return ev(e).SetScale(a, target)
 		}},
-		{name: "Rotate", op1: []int{vNone}, ks: c09Rotations, deg: degOne, call: func(e any, a *rlwe.Ciphertext, b any, k int, o *rlwe.Ciphertext) error { return ev(e).Rotate(a, k, o) }},
-		{name: "Conjugate", op1: []int{vNone}, deg: degOne, call: func(e any, a *rlwe.Ciphertext, b any, k int, o *rlwe.Ciphertext) error { return ev(e).Conjugate(a, o) }},
 		{name: "InnerSum", op1: []int{vNone}, ks: []int{1, 2}, needDeg1: true, deg: degOne, call: func(e any, a *rlwe.Ciphertext, b any, k int, o *rlwe.Ciphertext) error {
 			return ev(e).InnerSum(a, k, 4, o)
 		}},
@@ -727,6 +751,8 @@ func c09CKKS(ctx *core.RunCtx) *c09Scheme {
 		}},
 		{name: "rlwe.ApplyEvaluationKey", op1: []int{vNone}, needDeg1: true, deg: degOne, call: func(e any, a *rlwe.Ciphertext, b any, k int, o *rlwe.Ciphertext) error {
 			return ev(e).ApplyEvaluationKey(a, &cc.evk.RelinearizationKey.EvaluationKey, o)
+		}, callNew: func(e any, a *rlwe.Ciphertext, b any, k int) (*rlwe.Ciphertext, error) {
+			return ev(e).ApplyEvaluationKeyNew(a, &cc.evk.RelinearizationKey.EvaluationKey)
 		}},
 		{name: "ScaleUp", op1: []int{vNone}, ks: []int{2, 3, 1024}, deg: degSame, call: func(e any, a *rlwe.Ciphertext, b any, k int, o *rlwe.Ciphertext) error {
 			return ev(e).ScaleUp(a, rlwe.NewScale(k), o)
